@@ -172,6 +172,8 @@ def build(run):
         return any(r[0] == "PANIC" for r in res), {"script": "set_mathml; MoveLastLocation (nothing to undo); MoveNext; MoveLastLocation twice; get_navigation_mathml_id", "results": res[1:]}
     l9["api"] = api_undo_first
     run.kani(crate9, [l9], timeout=900)
+    crate10, lemma10 = navid_lemma(run)
+    run.kani(crate10, [lemma10], timeout=300)
     crate8, lemma8 = marker_lemma(run)
     run.kani(crate8, [lemma8], timeout=600)
     crate7, lemma7 = attach_lemma(run)
@@ -324,3 +326,73 @@ def marker_lemma(run):
                        role=lambda v, o: "non-numeric-marker-attribute-unwrap",
                        covers=["non-numeric marker value reachable", "numeric marker value reachable"],
                        claim="no value of the marker attribute makes the two readers panic")
+
+
+# ======================================================================================================================
+# K-C08-l: get_navigation_mathml_id / get_braille_position before any set_mathml (caller/callee contract)
+#   callee: NavigationState::get_navigation_mathml_id unwraps the id of the math element when its stack is empty
+#   caller: interface::get_navigation_mathml_id must not reach it in that situation with a math element that has no id
+NAVID_SHIM = r"""
+pub type Result<T> = core::result::Result<T, Error>;
+#[derive(Debug)] pub struct Error;
+macro_rules! bail { ($($t:tt)*) => { return Err(Error) }; }
+fn enable_logs() { }
+#[derive(Clone, Copy)] pub struct Element { has_id: bool, childless: bool }
+pub struct Kids { n: usize }
+impl Kids { fn is_empty(&self) -> bool { self.n == 0 } fn len(&self) -> usize { self.n } }
+impl Element { fn children(&self) -> Kids { Kids { n: if self.childless { 0 } else { 1 } } } }
+pub struct Package { math: Element }
+pub struct Slot<T> { v: T }
+impl<T> Slot<T> { fn borrow(&self) -> &T { &self.v } }
+pub struct Key<T> { f: fn() -> T }
+impl<T> Key<T> { fn with<R>(&self, f: impl FnOnce(&Slot<T>) -> R) -> R { f(&Slot { v: (self.f)() }) } }
+static mut MATH: Element = Element { has_id: false, childless: true };
+static mut STACK_EMPTY: bool = true;
+fn the_package() -> Package { Package { math: unsafe { MATH } } }
+fn the_nav_state() -> NavigationState { NavigationState { stack_empty: unsafe { STACK_EMPTY } } }
+#[allow(non_upper_case_globals)] static MATHML_INSTANCE: Key<Package> = Key { f: the_package };
+#[allow(non_upper_case_globals)] static NAVIGATION_STATE: Key<NavigationState> = Key { f: the_nav_state };
+fn get_element(p: &Package) -> Element { p.math }
+pub struct NavigationState { stack_empty: bool }
+impl NavigationState {
+    /// stand-in with the contract of the real method (navigate.rs): with an empty position stack it unwraps the id attribute of `mathml`
+    fn get_navigation_mathml_id(&self, mathml: Element) -> (String, usize) {
+        assert!(!self.stack_empty || mathml.has_id, "get_navigation_mathml_id reaches `mathml.attribute_value(\"id\").unwrap()` with a math element that has no id (no expression has been set)");
+        (String::new(), 0)
+    }
+}
+"""
+
+NAVID_HARNESS = r"""
+HARNESS(navigation_id_before_set_mathml, 4) {
+    let set = sym::bool();                                  // has set_mathml succeeded at least once?
+    // state invariant of the session: before the first set_mathml the package holds <math></math> (no id, no children) and the navigation stack is empty;
+    // afterwards every element has an id (add_ids) and math has its one child
+    unsafe { MATH = Element { has_id: set, childless: !set }; STACK_EMPTY = if set { sym::bool() } else { true }; }
+    let r = get_navigation_mathml_id();                      // must not panic
+    cover!(!set && r.is_err(), "no expression set is reported as an error reachable");
+    cover!(set && r.is_ok(), "navigation id after set_mathml reachable");
+    if set { assert!(r.is_ok(), "the navigation id is refused although an expression is set"); }
+    core::mem::forget(r);
+}
+"""
+
+
+def api_navid(vals=None, out=None):
+    res = mcprobe(["navid", "brpos", ("mathml", "<math><mi>z</mi></math>"), "navid"])
+    return any(r[0] == "PANIC" for r in res) or res[-1][0] != "OK", {"script": "fresh session: get_navigation_mathml_id, get_braille_position before any set_mathml; then set_mathml and again", "results": res}
+
+
+def navid_lemma(run):
+    itf = slicer.Source.get("src/interface.rs")
+    nav = slicer.Source.get("src/navigate.rs")
+    f = itf.find("fn get_navigation_mathml_id")
+    callee = nav.find("impl NavigationState", "fn get_navigation_mathml_id")
+    run.uses(f, callee)
+    crate = kani_run.Crate("c08navid", NAVID_SHIM + f.text + NAVID_HARNESS)
+    run.bound("K-C08-l", "interface::get_navigation_mathml_id verbatim, in a session where set_mathml has / has not succeeded yet (navigation stack empty or not)")
+    run.assume("thread-local instances replaced by stand-ins; NavigationState::get_navigation_mathml_id replaced by its contract (panics iff its stack is empty and the math element has no id, as the real method's unwrap does); "
+               "session invariant: before the first set_mathml the package is <math></math> without id")
+    return crate, dict(id="K-C08-l.navigation_id_before_set_mathml", harness="navigation_id_before_set_mathml", api=lambda v, o: api_navid(),
+                       role=lambda v, o: "navigation-id-without-expression", covers=["no expression set is reported as an error reachable", "navigation id after set_mathml reachable"],
+                       claim="get_navigation_mathml_id (and get_braille_position, which calls it first) returns an error instead of panicking when no expression has been set")
